@@ -102,13 +102,17 @@ def decoder_crosscheck(ctx, judged_words):
         return
     words = sorted(judged_words)
     inp = "".join(" ".join("0x%02x" % b for b in struct.pack("<I", w)) + "\n" for w in words)
-    p = subprocess.run([exe, "--disassemble", "-triple=aarch64", "-mattr=+v8.4a,+lor,+rcpc-immo,+neon", "--show-encoding"],
+    p = subprocess.run([exe, "--disassemble", "-triple=aarch64", "-mattr=+v8.4a,+lor,+rcpc-immo,+neon"],
                        input=inp, capture_output=True, text=True)
-    dis = {}
-    for l in p.stdout.splitlines():
-        m = re.match(r"\s*(.*?)\s*//\s*encoding: \[(.*)\]", l)
-        if m:
-            dis[int.from_bytes(bytes(int(x, 16) for x in m.group(2).split(",")), "little")] = m.group(1).strip()
+    # one word per input line; undecodable lines are reported on stderr by line number, the rest
+    # are printed in order (llvm's own re-encoding is not used: it canonicalises ignored bits)
+    invalid = {int(m.group(1)) for m in re.finditer(r"<stdin>:(\d+):\d+: warning: invalid instruction encoding", p.stderr)}
+    lines = [l.strip() for l in p.stdout.splitlines() if l.strip() and not l.strip().startswith(".text")]
+    valid = [w for i, w in enumerate(words) if (i + 1) not in invalid]
+    if len(valid) != len(lines):
+        raise core.ToolError("llvm-mc output does not line up with its input (%d words, %d invalid, %d lines)" % (
+            len(words), len(invalid), len(lines)))
+    dis = dict(zip(valid, lines))
     agree, uncovered, bad = 0, 0, []
     for w in words:
         fam, reg = _llvm_family(judged_words[w])
